@@ -93,7 +93,7 @@ claim("C09", "proof",
 claim("C13", "other",
       "Rate is a four-field record (axioms by composing the extracted new/accessor bodies); reciprocal swaps the pairs and is an involution by rewriting; Rate*q (generic body), and "
       "q*Rate / q/Rate of every quantity type are compared as rational functions over the uninterpreted like-quantity ratio (unit slots exactly); q / r equals q * reciprocal(r) after substitution; "
-      "every arithmetic intermediate of a rate operation is one of the magnitudes the property names (so no unbounded intermediate is rounded in the decimal back-end).",,
+      "every arithmetic intermediate of a rate operation is one of the magnitudes the property names (so no unbounded intermediate is rounded in the decimal back-end).",
       VF_NOTE + " The like-quantity ratio itself is C03/C10; as_qty is C09.", "value-flow summaries + rational-function normal form (static)", "DESIGN.md §4 C13")
 claim("C14", "other",
       "ConversionTable::convert (one generic body, hence any table): identity branch returns the value unchanged, otherwise find_map over the table in order with the row predicate "
